@@ -6,7 +6,7 @@ VERUS = [dict(
     name="with_fetch_rows",
     uses="use vstd::prelude::*;\n",
     prelude="prelude.rs", proofs="proofs.rs", witness="witness.rs", rlimit=60, min_verified=5,
-    twins=[],
+    twins=["c29_with_fetch_rows_partitions", "c29_with_fetch_rows"], twin_timeout=600,
     items=[
         dict(file=F, path=["enum Precision"], prefix="#[derive(Clone, Copy)]\n", edits=[NOBOUNDS]),
         dict(file=F, path=["impl<T: Debug + Clone + PartialEq + Eq + PartialOrd> Precision<T>", "fn is_exact"], wrap="impl<T> Precision<T>", ret="r",
@@ -72,6 +72,7 @@ KANI = [dict(package="datafusion-common", module=M, timeout=3000, harnesses=[
     dict(name="c29_min_max_to_inexact", complete=True, what="Precision::<usize>::{min,max,to_inexact,is_exact,get_value}: Exact only from two Exact inputs and equal to the true min/max"),
     dict(name="c29_selectivity", complete=True, what="with_estimated_selectivity: only Exact(0) stays Exact (selectivity from {0,0.5,1}; float value irrelevant to exactness)"),
     dict(name="c29_with_fetch_rows", complete=True, thorough_only=True, what="Statistics::with_fetch with no columns, full domain of (num_rows, fetch, skip, n_partitions): Exact(v) => input Exact and v == rows LIMIT/OFFSET emits (n_partitions==1) / unwrapped product (n_partitions>1)"),
+    dict(name="c29_with_fetch_rows_partitions", complete=True, thorough_only=True, what="with_fetch, symbolic n_partitions: used as counterexample finder (twin of the Verus unit); proving it does not finish (float division)"),
     dict(name="c29_with_fetch_one_column_bounded", complete=False, thorough_only=True, bound="1 column (column loop), byte sizes Absent", what="with_fetch: when rows are cut no column statistic stays Exact, NDV <= rows; identity case keeps columns"),
 ])]
 TRUSTED = ["Kani 0.68 / CBMC 6.11", "std::fmt::format stubbed (error text opaque)"]
